@@ -43,6 +43,11 @@ def make_fn(kind):
             else:
                 v = y * y; u = x * y
             return u + 3 * v
+    elif kind == "layout":         # identical constraints, value-dependent I/O block layout (which wires are returned)
+        @qb.subqap("layout")
+        def f(x, y):
+            m = x * y
+            return [m, x] if x.value % 2 else [m, y]
     else: raise ValueError(kind)
     return f
 
@@ -66,6 +71,7 @@ try:
             calls.append([kind, [regs[a].value for a in args], [x.value for x in flat]])
             if isinstance(r, list):
                 for i, x in enumerate(r): regs["%s%d" % (dst, i)] = x
+                regs[dst] = r[0]
             else: regs[dst] = r
     buf = io.StringIO()
     with contextlib.redirect_stderr(buf), contextlib.redirect_stdout(buf):
